@@ -121,14 +121,15 @@ Definition sd_trans (st : state) (l : label) (s s' : sd) : Prop :=
   | LSdAcquire _ => dpc s = DAcquire /\ dpc s' = DCancel (reg st)
   | LSdCancel _ j => exists pend pend', dpc s = DCancel pend /\ remove1 j pend = Some pend' /\ dpc s' = DCancel pend'
   | LSdSnap _ => dpc s = DSnap /\ dpc s' = DJoin (reg st)
-  | LSdJoin _ => exists j rest, dpc s = DJoin (j :: rest) /\ finished st j = true /\ dpc s' = DJoin rest
+  | LSdJoin _ => exists j rest, dpc s = DJoin (j :: rest) /\ finished st j = true /\ failed st j = false /\ dpc s' = DJoin rest
+  | LSdRaise _ => exists j rest, dpc s = DJoin (j :: rest) /\ finished st j = true /\ failed st j = true /\ dpc s' = DRaised
   | LSdReturn _ => (dpc s = DCancel [] \/ dpc s = DJoin []) /\ dpc s' = DDone
   | _ => False
   end.
 
 Definition sd_of (l : label) : option nat :=
   match l with
-  | LSdSet k | LSdAcquire k | LSdCancel k _ | LSdSnap k | LSdJoin k | LSdReturn k => Some k
+  | LSdSet k | LSdAcquire k | LSdCancel k _ | LSdSnap k | LSdJoin k | LSdRaise k | LSdReturn k => Some k
   | _ => None
   end.
 
@@ -143,7 +144,9 @@ Proof.
   destruct l; simpl; unfold on_job, on_sd, sd_trans; simpl; intros H.
   all: try (step_inv; simpl in *; auto; fail).
   all: step_inv; simpl in *; (split; [reflexivity|]); do 2 eexists; (split; [reflexivity|]); (split; [reflexivity|]); simpl; repeat (split || eexists); eauto.
-  all: rewrite Heqb; reflexivity.
+  all: try (rewrite Heqb; reflexivity).
+  all: apply andb_prop in Heqb; destruct Heqb as [Hf1 Hf2]; auto;
+       try (apply negb_true_iff in Hf2; auto).
 Qed.
 
 (* ------------------------------------------------------------------ per-job invariant *)
@@ -364,7 +367,8 @@ Proof.
   - destruct Ht as (-> & ->). lia.
   - destruct Ht as (pend & pend' & -> & Hr & ->). apply remove1_length in Hr. lia.
   - destruct Ht as (-> & ->). lia.
-  - destruct Ht as (j & rest & -> & _ & ->). simpl. lia.
+  - destruct Ht as (j & rest & -> & _ & _ & ->). simpl. lia.
+  - destruct Ht as (j & rest & -> & _ & _ & ->). simpl. lia.
   - destruct Ht as ([-> | ->] & ->); simpl; lia.
 Qed.
 
@@ -532,6 +536,56 @@ Lemma no_process_after_shutdown_refuted :
 Proof.
   destruct process_after_shutdown_witness as (st & Hr & Ha & Hs & Hk & Hj).
   exists [false], [false], witness_process, st, 0, 0. auto.
+Qed.
+
+(* shutdown(wait=True) re-raises the exception of a failed / timed-out job out of _join
+   and abandons the jobs it has not waited for yet *)
+Definition witness_raise : list label :=
+  [LSubCheck 0; LSubAcquire 0; LSubAppend 0; LSubStart 0; LSubRelease 0;
+   LSubCheck 1; LSubAcquire 1; LSubAppend 1; LSubStart 1; LSubRelease 1;
+   LPopen 0 true; LPopen 1 true; LCommTimeout 0; LFinally 0; LSetResult 0;
+   LSdSet 0; LSdSnap 0; LSdRaise 0].
+
+Definition raisedb (st : state) (k : nat) : bool :=
+  match nth_error (sds st) k with
+  | Some s => match dpc s with DRaised => true | _ => false end
+  | None => false
+  end.
+
+Lemma shutdown_wait_raises_refuted :
+  exists tmos sched st,
+    run (init tmos [true]) sched = Some st /\ shutdown_raised 0 sched /\
+    ~ accepted_after_return sched /\ raisedb st 0 = true /\ running st 1 = true /\
+    forall ext st', run st ext = Some st' -> raisedb st' 0 = true.
+Proof.
+  exists [true; false], witness_raise. eexists. split; [vm_compute; reflexivity|].
+  split; [unfold shutdown_raised, witness_raise; simpl; auto 20|].
+  split.
+  { intros (pre & post & j & k & Heq & Hin). unfold witness_raise in Heq.
+    repeat (destruct pre as [|? pre]; simpl in Heq; [inversion Heq; subst; simpl in Hin; intuition discriminate|
+            inversion Heq; subst; clear Heq; rename H1 into Heq]). }
+  split; [reflexivity|]. split; [reflexivity|].
+  (* DRaised is terminal: no label moves shutdown caller 0 any more *)
+  assert (Hstep : forall s l s', raisedb s 0 = true -> step s l = Some s' -> raisedb s' 0 = true).
+  { intros s l s' Hr Hs. apply step_globals in Hs. destruct Hs as (_ & Hs).
+    unfold raisedb in *. destruct (sd_of l) as [k|].
+    - destruct Hs as (x & x' & Hn & Hss & Ht). rewrite Hss.
+      destruct (Nat.eqb_spec 0 k).
+      + subst k. rewrite Hn in Hr. exfalso. unfold sd_trans in Ht. destruct Ht as (_ & Ht).
+        destruct (dpc x) eqn:Ed; try discriminate.
+        destruct l; try contradiction;
+          repeat match goal with
+                 | H : _ /\ _ |- _ => destruct H
+                 | H : exists _, _ |- _ => destruct H
+                 | H : _ \/ _ |- _ => destruct H
+                 end; congruence.
+      + rewrite nth_set_nth_neq; auto.
+    - rewrite Hs; auto. }
+  intros ext. induction ext as [|l ext IH] using rev_ind; intros st' Hrun.
+  - simpl in Hrun. inversion Hrun; subst. reflexivity.
+  - rewrite run_app in Hrun. destruct (run _ ext) eqn:E; try discriminate.
+    simpl in Hrun. destruct (step s l) eqn:Es; try discriminate. inversion Hrun; subst.
+    eapply Hstep; [|eauto]. apply IH. reflexivity.
 Qed.
 
 Lemma join_misses_accepted_job_refuted :
